@@ -11,7 +11,7 @@ class Prop:
     thorough_runs = 300000
     chunk = 40
     rule = ("per seeded pipeline (depth 1-3 over hot, cold and sync sources; every catalogue row with a callback is the root of some "
-            "scenario) an undisturbed run counts the invocations of every callback site; then one run per (site, k) raises InjectedFault at "
+            "scenario) an undisturbed run counts the invocations of every callback site; then one run per (site, k) raises InjectedFault (a plain Exception subclass, or one that is also a StopIteration / KeyError / ValueError / TypeError / AttributeError / IndexError / RuntimeError) at "
             "the k-th invocation. The fault must reach the root recorder as on_error(InjectedFault), must not escape into the emitting "
             "source or out of the scheduler, no callback may run at a later instant, the grammar holds and every source subscription is "
             "released at the failure instant. Sites below an operator that legitimately handles errors (catch, retry, "
@@ -38,7 +38,8 @@ class Prop:
             t = rng.choice(["take", "skip", "map", "share", "start_with", "distinct_until_changed", "take_last"])
             node = {"op": t, "id": ctx.next_id(), "a": catalog.ROWS[t].gen(ctx), "in": [node]}
         return {"clock": rng.choice(["test", "test", "historical", "vts"]), "sources": ctx.sources, "program": node,
-                "sub_t": rng.choice([200, 205]), "horizon": 2500, "drop_children_on_terminal": True}
+                "sub_t": rng.choice([200, 205]), "horizon": 2500, "drop_children_on_terminal": True,
+                "exc": rng.choice([None, None, None, "stop_iteration", "stop_iteration", "key_error", "value_error", "type_error", "attribute_error", "index_error", "runtime_error"])}
 
     def fault_sites(self, prog):
         """sites whose path to the root only crosses error-transparent operators"""
